@@ -336,7 +336,7 @@ fn outcome(r: Result<Report, (String, Option<&'static str>)>) -> Outcome {
 
 pub fn run(ctx: &mut Ctx) {
 	if ctx.wants("G_values_outside_known_classes") {
-		let n = ctx.pick(60_000, 800_000);
+		let n = ctx.pick(200_000, 800_000);
 		let fam = Fam::new("G_values_outside_known_classes", "proptest: values whose numbers avoid the two known classes by construction (64-bit integers; fractions with <= 19 digits, exponents always with a fraction; the private token never as first key, but allowed elsewhere) with duplicate-free and duplicate-carrying objects: to_value(&v) == model (exact copy, -0 -> 0, duplicates collapse to first position / last value); from_value::<Value>(v) and serde_json::from_str::<Value>(compact text) give the same structure and the same integer/double per number (text clause: differential against serde_json's own Value, exactness where serde_json's parser is exact); non-trivial = a fraction number and an object with >= 2 entries", false);
 		let fam = run_proptest(
 			ctx,
@@ -349,7 +349,7 @@ pub fn run(ctx: &mut Ctx) {
 		ctx.add(fam);
 	}
 	if ctx.wants("A_all_number_spellings") {
-		let n = ctx.pick(60_000, 800_000);
+		let n = ctx.pick(200_000, 800_000);
 		let fam = Fam::new("A_all_number_spellings", "proptest: values with *every* number spelling (integers beyond 64 bits, exponent without fraction, up to 400 digits, beyond the double range): failures matching the class predicates of the known findings (a: integer syntax not representable in 64 bits cannot be serialized; b: > 19 significant digits may deserialize one ulp off, never more) are counted as known; everything else must hold; non-trivial as above", false);
 		let fam = run_proptest(
 			ctx,
